@@ -93,7 +93,7 @@ META.update({
     "C24": dict(
         text="Exploration: generated histories of decodable but improper client input; every packet the gateway writes to the broker is parsed by the independent MQTT 3.1.1 parser and validated against per-packet normative statements (each violation names its clause). Second part: a broker which reads slowly (takes 1-3000 more octets, stalls 99-450 ms, reads on): the stream must parse and be, octet for octet, what a broker which is never slow reads (differential).",
         note=_GW_NOTE + " Only per-packet rules are judged; repeated CONNECTs and QoS -1 PUBLISH before CONNECT are excluded as the property says.",
-        technique="stateful PBT; oracle = MQTT 3.1.1 validator with clause citations"),
+        technique="stateful PBT; oracle = MQTT 3.1.1 validator with clause citations; fault injection (partial writes) with a differential oracle (slow broker vs broker which is never slow)"),
 })
 CHECKS["C11"] = dict(parts=[part("sleep-buffering", "gw", "TestC11", 3000, 150_000)])
 CHECKS["C12"] = dict(parts=[part("broker-keepalive-kept", "gw", "TestC12", 2000, 100_000)])
@@ -162,7 +162,7 @@ META.update({
     "C30": dict(
         text="Exploration: generated configurations (a YAML file with 0-3 client blocks from {'*', c1, c2} over IDs 1-4 and names that need YAML quoting, and/or 0-4 --predefined-topic options in both forms which overlap the file and each other, given by flags or by environment variables) are handed to the three real binaries built from the working tree. bisquitt is probed over loopback UDP with a PUBLISH on every predefined ID (topic seen by a harness broker, or session dropped); bisquitt-pub and bisquitt-sub run against a scripted UDP gateway and the way they address each name (predefined ID vs REGISTER/SUBSCRIBE by name) is read off the wire. Oracle: a model mapping = the file's, overridden entry by entry by the options in order, two-field options under '*'; every tool must agree with it and none may refuse a valid configuration. In-process part: the three calls every tool makes (read file, parse options, merge) over 5000 configurations per quick run, ID -> name exact and name -> ID sound and complete against the statement's mapping; files include empty documents and empty client blocks in all YAML spellings.",
         note="Process-level check on real sockets and real time; a liveness timeout is inconclusive (the case is skipped and counted; more than half skipped = exit 2), never a violation. Binaries are built with go1.26.8 through the harness module, without the verif tag having any effect on them (no hooks in cmd/). An ID chosen by a tool passes if the model maps it back to the requested name for this client, so C05's shadowing question is not double-reported.",
-        technique="PBT over configurations (rapid) with a merged-mapping reference model; differential across the three binaries via wire probes"),
+        technique="PBT over configurations (rapid) with a merged-mapping reference model; differential across the three binaries via wire probes; the same model against the tools' library calls in-process"),
     "C31": dict(
         text="Exploration: (b) the real client library with/without a configured user, will on/off, a gateway that ignores 0..RetryCount+1 CONNECTs, repeated Connect calls and further API traffic: no AUTH datagram ever without a user; with a user every CONNECT datagram (first and retried) is immediately followed by an AUTH carrying exactly the configured credentials. (a) the three command-line tools over the exhaustive flag/environment matrix are checked by the part cli-refuses-plaintext. A client tool with credentials and --dtls whose handshake the peer refuses (fatal alert) is watched for 2.5 s: no CONNECT/AUTH may follow in clear UDP.",
         note=_CL_NOTE, technique="PBT over client configurations and connect-retry schedules; exhaustive enumeration of the CLI flag matrix"),
@@ -185,10 +185,10 @@ META.update({
     "C18": dict(
         text="Exploration (race-detector build, virtual clock): generated schedules in which Success/Fail/Proceed/context-cancel are released together on separate goroutines at instants that coincide with timer expiries, with zero and minimal delays and failing retry callbacks; oracle: completion callback exactly once, Err() stable after Done, no retry after a quiescent point with Done closed, no panic, no race report (process death is attributed to the case written to disk beforehand). Second part, schedule owned by the harness: the k-th retry timer has fired but its function is parked at its entry (verif-tagged hook holding the lock it takes first) while Success/Fail finishes the transaction at that very instant; after the release no retry callback may run, Err() stays, the completion callback ran once.",
         note=_PURE_NOTE.replace("no hooks needed", "one hook (transactions.VerifHoldTimer, second part only)") + " A bubble fixes time but not the order of goroutines runnable at the same instant: the race detector reports unordered conflicting accesses whether or not the bad overlap happened in that run; interleavings that need several specific context switches may be missed.",
-        technique="PBT over racing operation schedules under the race detector and synctest; history invariants as oracle"),
+        technique="PBT over racing operation schedules under the race detector and synctest; history invariants as oracle; one schedule (timer fired, function not yet run) owned by the harness through a hook"),
     "C19": dict(
         text="Exploration: retry and timed transactions on the virtual clock with one driver goroutine; RetryCount 0-6, delays 1 ms..60 s, progress events and the final completion at offsets that never coincide with a timer instant (small space enumerated); the oracle is exact on virtual timestamps: callbacks at T+d..T+c*d after the last progress, 'no more retries' at T+(c+1)*d, 'timeout' exactly at the timeout, nothing after completion. Client-level parts: the connect exchange is timed by ConnectTimeout; the last step of Publish QoS 1/2, Subscribe, Register goes out RetryCount+1 times RetryDelay apart and fails one RetryDelay later whatever non-progress (duplicate PUBRECs, stale acknowledgements) arrives in between.",
-        note=_PURE_NOTE, technique="PBT with an exact timing model on a virtual clock (testing/synctest); partial exhaustive enumeration"),
+        note=_PURE_NOTE + " Two parts drive the real client on an in-memory link instead.", technique="PBT with an exact timing model on a virtual clock (testing/synctest); partial exhaustive enumeration"),
     "C29": dict(
         text="Exploration: the ID sequence against a counter model exhaustively for all small ranges, ranges ending at 0xFFFF and the full range, and concurrently (2-8 goroutines, race-detector build) by comparing the multiset of results with the model's first N outputs; the transaction store and ClientState by recording generated concurrent programs with call/return times and deciding linearizability against an atomic map / register with porcupine.",
         note=_PURE_NOTE + " Real goroutines on real cores: which overlaps occur is up to the scheduler; the race detector reports unsynchronised accesses regardless.",
